@@ -84,7 +84,7 @@ func (r *Raft) onRequest(req request, c *conn) (result rpcResult, err error) {
 	case *installSnapReq:
 		return r.onInstallSnapRequest(req, c)
 	case *timeoutNowReq:
-		return r.onTimeoutNowRequest()
+		return r.onTimeoutNowRequest(req)
 	default:
 		panic(fmt.Errorf("[BUG] raft.onRequest(%T)", req))
 	}
@@ -355,7 +355,12 @@ func (r *Raft) onInstallSnapRequest(req *installSnapReq, c *conn) (rpcResult, er
 
 // onTimeoutNowRequest -------------------------------------------------
 
-func (r *Raft) onTimeoutNowRequest() (rpcResult, error) {
+func (r *Raft) onTimeoutNowRequest(req *timeoutNowReq) (rpcResult, error) {
+	if req.term < r.term {
+		// from a leader that is deposed since then, or delivered late.
+		// it must not disturb the current leader
+		return staleTerm, nil
+	}
 	if !r.configs.Latest.isVoter(r.nid) {
 		return nonVoter, nil
 	}
